@@ -321,3 +321,15 @@ CLAIMED.update({
          "note": STD_NOTE + ORDER_NOTE,
          "technique": "static analysis: evaluation of extracted gating/limit code over small value domains against the documented rule (K6), who-may-invoke (K2)"},
 })
+CLAIMED.update({
+ "C19": {"level": "other",
+         "text": "Callback delivery structure of bufferevents: both deferred runners evaluated on every combination of pending conditions x callbacks set/unset (CONNECTED first, then "
+                 "read, write, other events; each only when pending and set; each pending flag cleared before its callback runs; unlock/lock bracket in the unlocked runner; exactly one "
+                 "reference dropped; the two runners agree); freshness: every callback pointer called in a runner, and the NULL test guarding it, is re-read from the bufferevent after "
+                 "each earlier user callback (a callback that clears or frees must silence the later ones); bufferevent_run_readcb_/writecb_/eventcb_ over (callback set, DEFER, newly "
+                 "scheduled): immediate invocation once, deferred mode records the condition and takes a reference exactly when newly scheduled; bufferevent_free clears all callbacks "
+                 "before cancelling and dropping its reference; in the socket write callback a successful connect reports CONNECTED before any write trigger, a failed/refused one "
+                 "exactly one ERROR. Declined: at-most-once EOF/ERROR over whole histories, name-lookup orderings.",
+         "note": STD_NOTE + ORDER_NOTE,
+         "technique": "static analysis: evaluation of extracted delivery code over finite pending/callback domains (K6), sibling agreement (K7), reaching-definition freshness across user callbacks (K9), must-precede ordering (K3)"},
+})
